@@ -267,6 +267,70 @@ pub fn run_growth(seed: u64, runs: u64, budget_ms: u64, max_cycles: u64, shard: 
         };
         let mut id = 1u64;
         let warm = 64u64;
+        if rng.chance(1, 6) {
+            // every receiver leaves first: the surviving sender keeps "operating" (its sends are refused
+            // as Disconnected) while sender handles are cloned and dropped
+            if let Some((f, _)) = fixed.take() {
+                f.drop_rx();
+            }
+            let mut peak: i64 = 0;
+            let (dead_tx, dead_rx) = (tx, rx);
+            dead_rx.drop_rx();
+            for _ in 0..warm {
+                let n = dead_tx.clone_tx();
+                n.try_send(id);
+                id += 1;
+                n.drop_tx(false);
+                dead_tx.try_send(id);
+                id += 1;
+            }
+            let (b0, _) = calloc::live();
+            let mut done = 0u64;
+            for n in 0..cycles {
+                let c = dead_tx.clone_tx();
+                c.try_send(id);
+                id += 1;
+                c.drop_tx(false);
+                dead_tx.try_send(id);
+                id += 1;
+                done = n + 1;
+                if n % 64 == 63 {
+                    let (b, _) = calloc::live();
+                    peak = peak.max(b - b0);
+                    if b - b0 > GROWTH_BOUND {
+                        break;
+                    }
+                }
+            }
+            let mut sig = Hasher64::new();
+            sig.add_str(&format!("no-receivers{:?}{}{}{}", fl, fut, cap, cycles));
+            shard.evaluations += 1;
+            shard.distinct.insert(sig.get());
+            shard.nontrivial.insert(sig.get());
+            shard.stat("churn_cycles", done);
+            shard.stat("runs_with_every_receiver_gone", 1);
+            shard.stat_max("peak_growth_bytes", peak.max(0) as u64);
+            if peak > GROWTH_BOUND {
+                violation(
+                    "C17",
+                    "churn-growth",
+                    "churn-growth:no-receivers-left".to_string(),
+                    format!(
+                        "memory held by the queue grew by {} bytes after {} sender clone/drop cycles although the surviving sender kept operating (every receiver had been dropped before; bound {} bytes; {} {} cap={})",
+                        peak, done, GROWTH_BOUND, fl.name(), if fut { "futures" } else { "plain" }, cap
+                    ),
+                );
+                let vs = payload::take_violations();
+                let replay = J::obj().set("engine", J::s("churn-growth")).set("cfg", J::s(format!("no receivers; {} fut={} cap={} cycles={}", fl.name(), fut, cap, cycles)));
+                shard.add_violations(vs, &replay);
+            }
+            dead_tx.drop_tx(false);
+            payload::take_violations();
+            payload::reset_ledger();
+            api::reset_ids();
+            i += 1;
+            continue;
+        }
         let mut cycle = |rx: &mut RxH, fixed: &mut Option<(RxH, RecvKind)>, c: Cycle, id: &mut u64| {
             let accepted = one_cycle_kind(&tx, rx, c, id, main_kind);
             if let Some((f, k)) = fixed.as_mut() {
